@@ -124,7 +124,8 @@ let flags f (d : n list) =
 
 let matches_str f d nm =
   if not f.spec then ob (matches d nm)
-  else if List.length d < 11 then "p"
+  else if List.length d < 12 then "p"
+  else if attr_lfn (List.nth d 11) then "f"      (* a long-name fragment carries no 8.3 name *)
   else if List.map int_of_n (List.filteri (fun i _ -> i < 11) d) = List.map int_of_n nm then "t" else "f"
 
 let es f args =
